@@ -151,19 +151,21 @@ Section Mono.
     - destruct (negb (num_is_one coef)); [|apply x_dat_le; op]. rb; [op|]. apply x_dat_le. rb; op.
   Qed.
 
-  Lemma xvisit_le : forall f deep st m e, refines (xvisit O1 f deep st m e) (xvisit O2 f deep st m e).
+  Lemma xvisit_le : forall f1 f2 deep st m e, (f1 <= f2)%nat ->
+    refines (xvisit O1 f1 deep st m e) (xvisit O2 f2 deep st m e).
   Proof.
-    induction f as [|f IH]; intros deep st m e; [apply refines_refl|]. cbn [xvisit].
+    induction f1 as [|f IH]; intros f2 deep st m e L; [intros r H; discriminate H|].
+    destruct f2 as [|g]; [inversion L|]. apply le_S_n in L. cbn [xvisit].
     assert (ER : forall e', refines (do s <- xvisit O1 f deep (NInt 0, []) (NInt 1) e'; o_afd O1 (fst s) (snd s))
-                                    (do s <- xvisit O2 f deep (NInt 0, []) (NInt 1) e'; o_afd O2 (fst s) (snd s))).
-    { intros e'. rb; [apply IH | op]. }
+                                    (do s <- xvisit O2 g deep (NInt 0, []) (NInt 1) e'; o_afd O2 (fst s) (snd s))).
+    { intros e'. rb; [apply IH; exact L | op]. }
     assert (EI : forall e', refines (if deep then do s <- xvisit O1 f deep (NInt 0, []) (NInt 1) e'; o_afd O1 (fst s) (snd s) else Ok e')
-                                    (if deep then do s <- xvisit O2 f deep (NInt 0, []) (NInt 1) e'; o_afd O2 (fst s) (snd s) else Ok e')).
+                                    (if deep then do s <- xvisit O2 g deep (NInt 0, []) (NInt 1) e'; o_afd O2 (fst s) (snd s) else Ok e')).
     { intros e'. destruct deep; [apply ER | apply refines_refl]. }
     destruct e; try (apply x_dat_le; apply refines_refl).
     - apply x_addnum_le; op.
     - rb; [apply x_addnum_le; op|]. apply refines_fold. intros s p. rb; [op|].
-      destruct deep; [apply IH | apply x_dat_le; apply refines_refl].
+      destruct deep; [apply IH; exact L | apply x_dat_le; apply refines_refl].
     - destruct (forallb _ d); [apply x_cdat_le|]. destruct d as [|[k v] d']; [apply x_cdat_le|].
       rb; [op|]. rb; [op|]. rb; [apply EI|]. rb; [apply EI|]. apply x_mul_expand_two_le.
     - rb; [apply EI|].
@@ -179,8 +181,8 @@ Section Mono.
         * destruct x as [st1 bd]. destruct (z =? 2)%Z; [apply x_square_le | apply x_pow_expand_le].
   Qed.
 
-  Lemma expand_at_le : forall f deep e, refines (expand_at O1 f deep e) (expand_at O2 f deep e).
-  Proof. intros. unfold expand_at. rb; [apply xvisit_le | op]. Qed.
+  Lemma expand_at_le : forall f1 f2 deep e, (f1 <= f2)%nat -> refines (expand_at O1 f1 deep e) (expand_at O2 f2 deep e).
+  Proof. intros. unfold expand_at. rb; [apply xvisit_le; assumption | op]. Qed.
 End Mono.
 
 Lemma guarded_le_real : ops_le guarded_ops real_ops.
@@ -189,7 +191,14 @@ Proof.
                   o_addnum o_dat o_multinomial]; intros;
     first [ apply refines_err | apply refines_guard ].
 Qed.
+Lemma ops_le_refl : forall O, ops_le O O.
+Proof. intros O. split; intros; apply refines_refl. Qed.
 
 (* a value returned by the guarded run is the value returned by the model *)
 Theorem expand_g_refines : forall deep e r, expand_g deep e = Ok r -> expand deep e = Ok r.
-Proof. intros deep e r. apply (expand_at_le guarded_ops real_ops guarded_le_real). Qed.
+Proof. intros deep e r. apply (expand_at_le guarded_ops real_ops guarded_le_real _ _ deep e (le_n _)). Qed.
+
+(* the result of expand (a value) does not depend on the fuel once the fuel suffices *)
+Theorem expand_fuel_mono : forall f f' deep e r, (f <= f')%nat ->
+  expand_at real_ops f deep e = Ok r -> expand_at real_ops f' deep e = Ok r.
+Proof. intros f f' deep e r L. apply (expand_at_le real_ops real_ops (ops_le_refl _) f f' deep e L). Qed.
